@@ -371,6 +371,35 @@ class Fn:
         return out
 
 
+def restricting_literals(fn, target, stop=()):
+    """branch literals that can keep control from reaching `target`: blocks one of whose edges leads to target and the
+    other does not (looking no further than the nodes in `stop`, e.g. the head of the enclosing loop, so that "the next
+    iteration gets there" does not count).  A superset of Fn.control_literals(): it also holds the last operand of a
+    disjunction `A || B` that guards the target, which no path *must* satisfy.
+    -> [(bid, truth-of-atom on the edge that leads to target, atom)]"""
+    out = []
+    stop = set(stop)
+    back = fn.reach_back([target], avoid=stop)
+    for bid, b in fn.blocks.items():
+        lit = fn.literal(bid)
+        if lit is None:
+            continue
+        end = fn.block_end(bid)
+        if end not in back:
+            continue
+        succ = fn.succ(end)
+        can = {}
+        for (m, si) in succ:
+            if si is None:
+                continue
+            can[si] = (m is target) or (m in back and m not in stop)
+        if len(can) == 2 and can.get(0) != can.get(1):
+            atom, pos = lit
+            truth = pos if can.get(0) else (not pos)
+            out.append((bid, truth, atom))
+    return out
+
+
 def switch_cases(fn, node):
     """for each switch of fn from which `node` is reachable: the case labels through which it
     can be reached without going round through the switch head again.
